@@ -348,7 +348,9 @@ func c13DescSchema(slot int, desc string) (string, int) {
 // default values (and directive argument values) written as quoted and block strings
 var c13DefaultLits = []string{"\"np\U000e0001\u00ad\"", "[\"\U0010fffd\", {k: \"\u2028\U000e0001\"}]", `"x"`, `"""one line"""`, "\"\"\"first\n  second\n  third\"\"\"", "\"\"\"\n  a\n    b\n  c\n\"\"\"", `"""ends with backslash\\"""`, `"""has \\""" inside"""`, "\"\"\"tab\there\"\"\"",
 	"[\"\"\"a\n b\"\"\", \"c\"]", "{k: \"\"\"x\n  y\"\"\"}", `"""  leading"""`, `""" """`, "\"\"\"é😀\n  é\"\"\"",
-	"\"\"\"\n  a\n    b\n    c\n\"\"\"", "\"\"\"\n x\n   y\"\"\"", "\"\"\"\n\ta\n\t\tb\\\\\"\"\"", "{k: [\"\"\"\n  p\n    q\n\"\"\"]}"}
+	"\"\"\"\n  a\n    b\n    c\n\"\"\"", "\"\"\"\n x\n   y\"\"\"", "\"\"\"\n\ta\n\t\tb\\\\\"\"\"", "{k: [\"\"\"\n  p\n    q\n\"\"\"]}",
+	// values that are easily taken for "no value": null, empty list / object, null inside them
+	`null`, `[]`, `{}`, `[null]`, `{k: null}`, `[[], {}]`}
 
 const c13DefaultTemplate = `scalar Any
 input In { x: String = § any: Any = § }
